@@ -8,11 +8,11 @@ import math
 import vlib
 from checks import numcommon as nc
 
-PROOF_MODULES = ["Num/NumC05.vo"]
+PROOF_MODULES = ["Num/NumC05.vo", "Num/NumC05U.vo"]
 OBLIGATIONS = [
     "C05/P_num_add_correct.v", "C05/P_num_sub_correct.v", "C05/P_num_mul_correct.v", "C05/P_num_div_correct.v",
     "C05/P_num_powint_correct.v", "C05/P_num_op_normalised.v", "C05/P_div_by_exact_zero.v",
-    "C05/P_pow_number_loop.v", "C05/P_nonvacuous.v",
+    "C05/P_pow_number_loop.v", "C05/P_normal_form_unique.v", "C05/P_nonvacuous.v",
 ]
 OPS = ["add", "sub", "mul", "div", "badd", "bmul"]
 TAGS = ("value", "norm", "divzero")
